@@ -1,6 +1,11 @@
 """Sidecar contracts on the real gemseo functions, one module per property (DESIGN.md §4)."""
 
 PROPS = {
+    "C03": {
+        "level_text": "Proof of the budget mechanism on gemseo's side of the algorithm/problem interface.",
+        "level_note": "see evidence",
+        "modules": ["contracts.c01_c03_evaluation"],
+    },
     "C05": {
         "level_text": "Proof (function by function, all inputs, unbounded) that SimpleCache operations implement a one-entry map from input content to "
                       "(outputs, Jacobian) and never keep a reference to an array the caller passed in; relative to the assumed contract of "
